@@ -92,6 +92,11 @@ def run(ctx, chk):
             fl = missing_flags(pf)
             facts = {"missing_" + fl.get(ast.unparse(a), ast.unparse(a)) if ast.unparse(a) in fl else ast.unparse(a)
                      for t_, pol in enclosing_tests(pf.node, n) for a, p in conjuncts(t_, pol) if p}
+            # the membership test written out (`'day' in missing_parts`) says the same as a flag bound to it
+            for x in list(facts):
+                m_ = __import__("re").fullmatch(r"'(month|day)' in \w+", " ".join(x.split()))
+                if m_:
+                    facts.add("missing_" + m_.group(1))
             chk.ob(rule, "the %s is completed only when the format lacks it" % part, ("missing_" + part) in facts,
                    "guards: %s" % sorted(facts), key={"function": pf.key, "construct": "completion guard " + part + " L-" + str(len(facts))},
                    file=pf.file, function=pf.qual, line=n.lineno)
